@@ -79,6 +79,10 @@ func c11cmp(mode string) func(a, b int) int {
 		return func(a, b int) int { return cmp.Compare(a/2, b/2) }
 	case "revhalf":
 		return func(a, b int) int { return cmp.Compare(b/2, a/2) }
+	case "diff": // a legal three-way comparison whose results are not confined to {-1,0,1}
+		return func(a, b int) int { return a - b }
+	case "rdiff2":
+		return func(a, b int) int { return 2 * (b - a) }
 	}
 	return cmp.Compare[int]
 }
@@ -352,7 +356,7 @@ func genC11Pairs(calls ...string) func(g *G) {
 }
 
 func genC12Lis(g *G) {
-	calls := []string{"lis nat", "lnds nat", "lis rev", "lnds rev", "lis half", "lnds half"}
+	calls := []string{"lis nat", "lnds nat", "lis rev", "lnds rev", "lis half", "lnds half", "lis diff", "lnds diff", "lis rdiff2", "lnds rdiff2"}
 	g.Case(append([]string{"reset -"}, calls...))
 	// exhaustive: 4 symbols, length ≤ 7 (9 thorough), divided among the generator shards;
 	// under `half` 0~1 and 2~3 tie
